@@ -13,7 +13,7 @@ NOTES = ("Technique: solver-based checking of the real code. Every claimed prope
          "symbolically execute the compiled mmtk-core functions; bounds and everything outside them are stated per property in "
          "DESIGN.md and in each evidence file. Exit 2 = inconclusive (never reported as held). Known findings / fixed defects: "
          "/verif/known_findings.json (read-only at run time; 'fixed' entries suppress nothing). Repaired in /repo: b72becc "
-         "'fix: header metadata compare_exchange returns the field's previous value' (C23, DESIGN.md section 6).")
+         "'fix: header metadata compare_exchange returns the field's previous value' (C23), abe3802 'fix: side-metadata overlap check measures each spec's range from its own start' (C25); see DESIGN.md section 6.")
 
 COMMON_ASSUME = [
     "x86-64 Linux, 64-bit layout; dev-profile semantics under Kani (debug assertions and overflow checks on)",
@@ -66,6 +66,18 @@ PROPS["C32"] = {
     "level_note": "Trusted: Kani/CBMC/cadical; the verif_set_vm_layout hook installs the layout (validated by the real validate()).",
 }
 
+PROPS["C25"] = {
+    "enc": ["sanity::verify_no_overlap_contiguous", "sanity::verify_global_specs", "sanity::verify_global_specs_total_size", "metadata_address_range_size",
+            "log_data_meta_ratio", "SideMetadataSpec::get_starting_address", "global_side_metadata_base_address (OnceLock set by the verif hook)"],
+    "sym": "runtime base address < 2^46; per spec: offset < 2^46, log_num_of_bits 0..=6, log_bytes_in_region 0..=22 with data:metadata ratio >= 2; pairs, and 3-element sets for verify_global_specs",
+    "bound": "All pairs of specs in those ranges (loop-free predicate); sets of 3 specs for the set-level check (the checker is pairwise, so larger sets repeat the same predicate).",
+    "outside": "the HashSet de-duplication in get_all_specs (local-spec path; hashbrown does not encode, DESIGN P10) - the pairwise predicate it feeds is the same function; 32-bit chunked predicate (not compiled on this target)",
+    "assumptions": COMMON_ASSUME + ["alloc::fmt::format stubbed to return an empty String (error message text not observed)", "hook leaks the io::Error instead of dropping it",
+                                    "offset and base below 2^46, metadata at most half the size of the data it describes (the layout's worst-case-ratio precondition)"],
+    "level_text": "Bounded symbolic execution (Kani/CBMC) of the real overlap predicate and set-level check over every pair (and 3-element set) of specs with symbolic offset, width, region size and runtime base: accepted iff the address intervals [start, start+range_size) are pairwise disjoint (two obligations: no false accept, no false reject).",
+    "level_note": "Trusted: Kani/CBMC/cadical, the interval-overlap oracle. Found and repaired F2 (repo abe3802).",
+}
+
 NOT_APPLICABLE = {}
 _L = ("observable only on a live collector (MMTK instance, mmap'd heap, OS worker threads, VM call-backs); Kani has no thread/FFI model and a "
       "whole collection is outside any unwinding bound; the bit-level kernels are decided under ")
@@ -90,5 +102,5 @@ NOT_APPLICABLE.update({
     "C39": "DESIGN P11: 3 symbolic bytes through to_lowercase/parse/format! exceed 420 s; GCTriggerSelector::from_str compiles two regex::Regex",
 })
 # Claimed in DESIGN.md but not built yet: listed as not applicable until their check exists.
-for _p in ["C08", "C10", "C17", "C18", "C20", "C21", "C22", "C24", "C25", "C26", "C27", "C28", "C29", "C31", "C34", "C35", "C37", "C38", "C40"]:
+for _p in ["C08", "C10", "C17", "C18", "C20", "C21", "C22", "C24", "C26", "C27", "C28", "C29", "C31", "C34", "C35", "C37", "C38", "C40"]:
     NOT_APPLICABLE.setdefault(_p, "check planned in DESIGN.md section 3 but not built yet; not claimed until its harnesses are registered")
